@@ -57,6 +57,49 @@ func c18Lattice() (ids []sim.ID) {
 	return out
 }
 
+// c18LatticeExt extends the lattice (same prefix, so indices stay valid) by: the 160 prefix masks
+// (top b bits set), their complements, root with two adjacent bits flipped, and IDs with two set
+// bits 1, 7, 8 and 64 positions apart. Used by the thorough tier and by replay.
+func c18LatticeExt() []sim.ID {
+	out := c18Lattice()
+	seen := map[sim.ID]bool{}
+	for _, x := range out {
+		seen[x] = true
+	}
+	add := func(x sim.ID) {
+		if !seen[x] {
+			seen[x] = true
+			out = append(out, x)
+		}
+	}
+	bit := func(x *sim.ID, b int) { x[b/8] ^= 1 << (7 - uint(b%8)) }
+	var mask sim.ID
+	for b := 0; b < 160; b++ {
+		bit(&mask, b)
+		add(mask)
+		c := mask
+		for i := range c {
+			c[i] = ^c[i]
+		}
+		add(c)
+		if b+1 < 160 {
+			r := sim.Root
+			bit(&r, b)
+			bit(&r, b+1)
+			add(r)
+		}
+		for _, gap := range []int{1, 7, 8, 64} {
+			if b+gap < 160 {
+				var y sim.ID
+				bit(&y, b)
+				bit(&y, b+gap)
+				add(y)
+			}
+		}
+	}
+	return out
+}
+
 func bigOf(id sim.ID) *big.Int { return new(big.Int).SetBytes(id[:]) }
 
 func c18Pair(a, b sim.ID) string {
@@ -304,7 +347,7 @@ func c18Replay(c explore.Case) string {
 		}
 		return
 	}
-	lat := c18Lattice()
+	lat := c18LatticeExt()
 	a := ints(strings.Join(c.H, ","))
 	switch c.Unit {
 	case "pair":
@@ -351,9 +394,16 @@ func itoas(v ...int) []string {
 func TestC18(t *testing.T) {
 	w := explore.NewWorker("C18")
 	defer w.Finish()
-	w.SetRule("ID lattice (0, max, root, root with each bit flipped, each single bit, 8 mixed): all ordered pairs for symmetry/identity/unsigned order/bit length/bucket index against math/big and a bit-loop reference; all bits for GetBit/SetBit; all 160 buckets x 3 roots x 4 draws for random IDs; closer-than on a 24-element universe (ID-less, equal IDs at several addresses, v4/v6, ports 0/1/65535) x 4 targets: all pairs and all 24^3 triples; every push sequence of length <= 6 over 6 elements (one equal-distance pair) into the K-nearest container for K in 1..3; every add/delete sequence of length <= 5 over 5 elements into the sorted candidate set. distinct_nontrivial counts distinct inputs evaluated")
+	w.SetRule("ID lattice (0, max, root, root with each bit flipped, each single bit, 8 mixed): all ordered pairs for symmetry/identity/unsigned order/bit length/bucket index against math/big and a bit-loop reference; all bits for GetBit/SetBit; all 160 buckets x 3 roots x 4 draws for random IDs; closer-than on a 24-element universe (ID-less, equal IDs at several addresses, v4/v6, ports 0/1/65535) x 4 targets: all pairs and all 24^3 triples; every push sequence of length <= 6 over 6 elements (one equal-distance pair) into the K-nearest container for K in 1..3; every add/delete sequence of length <= 5 over 5 elements into the sorted candidate set. thorough: lattice extended by prefix masks, complements and two-bit IDs (about 1300 IDs), K up to 4, push sequences <= 7, set sequences <= 6. distinct_nontrivial counts distinct inputs evaluated")
 	lat := c18Lattice()
+	maxK, pushLen, setLen := 3, 6, 5
+	if w.Thorough() {
+		lat = c18LatticeExt()
+		maxK, pushLen, setLen = 4, 7, 6
+	}
 	w.Bound("lattice_ids", len(lat))
+	w.Bound("push_len", pushLen)
+	w.Bound("set_len", setLen)
 	idx := 0
 	// pairs, sharded by first index
 	for i := range lat {
@@ -418,7 +468,7 @@ func TestC18(t *testing.T) {
 	}
 	w.Outcome("order", 1)
 	// push sequences, sharded by (K, first element)
-	for k := 1; k <= 3; k++ {
+	for k := 1; k <= maxK; k++ {
 		for first := 0; first < 6; first++ {
 			u := idx
 			idx++
@@ -434,7 +484,7 @@ func TestC18(t *testing.T) {
 					return
 				}
 				n++
-				if len(seq) == 6 {
+				if len(seq) == pushLen {
 					return
 				}
 				for e := 0; e < 6; e++ {
@@ -463,7 +513,7 @@ func TestC18(t *testing.T) {
 				return
 			}
 			n++
-			if len(seq) == 5 {
+			if len(seq) == setLen {
 				return
 			}
 			for e := -5; e < 5; e++ {
